@@ -30,6 +30,8 @@ type HarnessEntry struct {
 	MaxRuns       int
 	Covers        []string // labels that must be reached (vacuity guard)
 	Native        bool     // a native replay of this harness is possible
+	Stubs         map[string]*ssa.Function // entry-specific redirections
+	Float         string   // "" = E2 with relative-error bound, "mono" = monotonic anchors only
 	Doc           string
 }
 
@@ -84,6 +86,7 @@ type Driver struct {
 	solverName string
 	timeoutMs int
 	known     []knownFinding
+	floatConsts []float64
 
 	mu       sync.Mutex
 	cond     *sync.Cond
@@ -124,6 +127,9 @@ func (d *Driver) newWorker(id int) (*Worker, error) {
 	logPath := ""
 	if os.Getenv("VERIF_SMTLOG") != "" && id == 0 {
 		logPath = filepath.Join(os.Getenv("VERIF_SMTLOG"), d.prop+".smt2")
+	}
+	for _, f := range d.floatConsts {
+		w.tc.RealF(f)
 	}
 	s, err := NewSolver(d.solverName, w.tc, d.timeoutMs, logPath)
 	if err != nil {
@@ -273,7 +279,7 @@ func (d *Driver) workerLoop(w *Worker, entry *HarnessEntry, deadline time.Time) 
 func (d *Driver) countUnknownViolations() int {
 	n := 0
 	for _, v := range d.violations {
-		if !d.isKnown(v) {
+		if v.Confirmed && !d.isKnown(v) {
 			n++
 		}
 	}
@@ -443,4 +449,16 @@ func (d *Driver) assumptions() []string {
 		}
 	}
 	return a
+}
+
+func (d *Driver) isCovered(entry, label string) bool {
+	d.mu.Lock()
+	defer d.mu.Unlock()
+	return d.covers[entry+":"+label]
+}
+
+func (d *Driver) markCovered(entry, label string) {
+	d.mu.Lock()
+	d.covers[entry+":"+label] = true
+	d.mu.Unlock()
 }
